@@ -11,7 +11,7 @@
 From Coq Require Import List Bool Arith ZArith String Permutation.
 Import ListNotations.
 Require Import Nib.C01.Sites Nib.C01.Model Nib.C01.PermSort Nib.C01.Proofs.
-Open Scope string_scope.
+Local Open Scope string_scope.
 
 Inductive just :=
 | JSorted      (* keys collected, sorted, THEN used *)
